@@ -1,19 +1,28 @@
 /-
   C04 — the inferred schema accepts every encoded value.  Property theorems only
   (helper lemmas: JSV/Proofs/InfStore.lean, InfStruct.lean, InfEqns.lean, InfModels.lean, InfValid.lean,
-  InfSound.lean; the model of encoding/json on the fragment is JSV/Spec/EncJson.lean).
+  InfSound.lean, InfNamed.lean, InfTable.lean, InfEmb*.lean; the model of encoding/json on the fragment is
+  JSV/Spec/EncJson.lean).
 
   Vocabulary:
   * `EncJson.GoValue`, `EncJson.HasType T v`, `EncJson.encode T v` : values of the fragment and json.Marshal;
   * `EncJson.InDomain T` : basic kinds Bool / Int* / Uint* / Float* / String / Interface, pointers, slices,
     arrays, string-keyed maps, structs whose non-omitted fields have pairwise distinct JSON names (H_D14) and
-    tag names encoding/json accepts (H_D15); no named types (these are covered by C16.typeTable_substituted);
+    tag names encoding/json accepts (H_D15); no named types;
+  * `EncJson.InDomainN T` : the same with declared (named) types, which encoding/json treats like their underlying
+    types (`EncJson.erase`); `EncJson.NamedOk opts strs [] T` : `forType` does so too (no type-table entry, no name
+    twice along a path) — or the type is one of the marshaler types `strs` of the type table (`infer_sound_named`);
+    `EncJson.EntriesAccept opts st false T` (JSV/Proofs/InfTable.lean): every entry of the type table that `forType`
+    meets in `T` accepts the encodings of its type (`infer_sound_table_partial`);
   * `Spec.specEnvNoRefs st re` : the Spec environment over the store, draft 2020-12, no references, any
     regexp matcher;
   * `EncJson.depth T` : the nesting depth of the schema, the fuel the Spec needs.
 -/
 import JSV.Proofs.InfSound
+import JSV.Proofs.InfNamed
+import JSV.Proofs.InfTable
 import JSV.Proofs.InfEmbSound
+import JSV.Proofs.InfEmbNamed
 import JSV.Proofs.EncEmbCons
 namespace JSV.C04
 open JSV Go EncJson Spec
@@ -83,6 +92,333 @@ theorem infer_sound_nil_pointer (opts : IOpts) (fuel : Nat) (T : GoType) (st : S
   infer_sound opts fuel (.ptr T) st id st' re hnfs hdom h .nilPtr trivial fuel' hf
 
 
+/-! ## declared (named) types, and the marshaler types of the initial type table -/
+
+/-- **main, with declared types**: `type Point struct{…}`, `type Celsius float64`, `type IDs []int` … at any position of
+    `T`.  For a type of the domain `InDomainN` (`InDomain` with declared types allowed) whose declared types are
+    transparent for `forType` (`NamedOk`, decidable: a declared type that is not one of the marshaler types `strs` has no
+    entry in the type table, its underlying type is a basic kind, slice, array, map or struct, and no name occurs twice
+    along a root-to-leaf path — the cycle check of `forType` fires otherwise, `C16.recursive_*_errors`), the schema
+    `ForType` returns accepts the JSON encoding of every value of the type; a value of a declared type is a value of its
+    underlying type and is encoded like it (encoding/json for types without marshal methods).
+
+    The marshaler types `strs` (`StrEntries`): declared types whose entry in the type table is the schema
+    `{"type":"string"}` — `initial_entries_string`: time.Time, slog.Level, big.Rat, big.Float of the initial table — and
+    whose `MarshalJSON` / `MarshalText` writes a JSON string.  Such a type is represented as `.named n (.basic "String")`,
+    its values as `GoValue.str s` with `s` the marshaled text (nothing else about these types is modelled).  `ForType`
+    returns a clone of the entry, with `null` added for a pointer; it accepts every string, and `null`.
+    (big.Int is not one of them: it marshals as a JSON number, which its entry `{"type":"string"}` rejects — the known
+    finding D13.  A marshaler type with pointer receiver held by value in a non-addressable position is outside the
+    property's domain: encoding/json does not call the marshaler there.)
+
+    The statement for types without declared types is `infer_sound` (there `NamedOk` holds trivially). -/
+theorem infer_sound_named (opts : IOpts) (strs : List String) (fuel : Nat) (T : GoType) (st : Store) (id : NodeId)
+    (st' : Store) (re : String → String → Bool) (hnfs : opts.nullForSlices = true) (hdom : InDomainN T = true)
+    (hst : StrEntries opts.schemas strs st) (hok : NamedOk opts strs [] T = true)
+    (h : forType opts fuel T st = .ok (some id, st')) (v : GoValue) (hv : HasType T v)
+    (fuel' : Nat) (hf : depth T ≤ fuel') :
+    Spec.valid (specEnvNoRefs st' re) fuel' id (encode T v) = some true := by
+  rw [forType_erase opts strs fuel T st hst hok] at h
+  rw [← encode_erase]
+  exact infer_sound opts fuel (erase T) st id st' re hnfs (by rw [← inDomainN_eq_erase]; exact hdom) h v
+    ((hasType_erase T v).2 hv) fuel' (Nat.le_trans (depth_erase_le T) hf)
+
+/-- on the domain with declared types `ForType` never drops the type -/
+theorem infer_some_named (opts : IOpts) (strs : List String) (fuel : Nat) (T : GoType) (st : Store) (r : Option NodeId)
+    (st' : Store) (hdom : InDomainN T = true) (hst : StrEntries opts.schemas strs st)
+    (hok : NamedOk opts strs [] T = true) (h : forType opts fuel T st = .ok (r, st')) : ∃ id, r = some id := by
+  rw [forType_erase opts strs fuel T st hst hok] at h
+  exact infer_some opts fuel (erase T) st r st' (by rw [← inDomainN_eq_erase]; exact hdom) h
+
+/-- the schema built for a type with declared types is the schema of the type with the declared types replaced by their
+    underlying types (`erase`), in the sense of `Go.Models` -/
+theorem infer_models_erase (opts : IOpts) (strs : List String) (fuel : Nat) (T : GoType) (st : Store) (id : NodeId)
+    (st' : Store) (hdom : InDomainN T = true) (hst : StrEntries opts.schemas strs st)
+    (hok : NamedOk opts strs [] T = true) (h : forType opts fuel T st = .ok (some id, st')) :
+    Models opts.nullForSlices st' (erase T) false id := by
+  rw [forType_erase opts strs fuel T st hst hok] at h
+  obtain ⟨id', hid, hm⟩ := inferFuel_models opts fuel (erase T) [] st (some id) st'
+    (by rw [← inDomainN_eq_erase]; exact hdom) h
+  cases hid
+  exact hm
+
+/-- the spec with declared types is conservative: typing, json.Marshal and the strict decoder on `T` are those on
+    `erase T`; `InDomainN` is `InDomain` of `erase T`, and contains `InDomain` -/
+theorem encJson_named_conservative (T : GoType) :
+    (∀ v, HasType (erase T) v ↔ HasType T v) ∧ (∀ v, encode (erase T) v = encode T v) ∧
+    (∀ j, decodable (erase T) j = decodable T j) ∧ InDomainN T = InDomain (erase T) ∧
+    (InDomain T = true → InDomainN T = true) :=
+  ⟨hasType_erase T, encode_erase T, decodable_erase T, inDomainN_eq_erase T, inDomainN_of_inDomain T⟩
+
+/-! ### the initial type table (infer.go `init`), regenerated from the source -/
+
+/-- the standard-library marshaler types of the initial table whose JSON form is a string -/
+def marshalerTypes : List String := ["time.Time", "slog.Level", "big.Rat", "big.Float"]
+
+/-- the initial type table as the driver builds it: ONE schema object (`ss`, node 0) shared by all entries -/
+def initialTable : List (String × NodeId) :=
+  ["time.Time", "slog.Level", "big.Int", "big.Rat", "big.Float"].map fun n => (n, 0)
+
+/-- **the initial entries are `{"type":"string"}`** (regenerated facts `Generated.initialSchemaEntries`,
+    `Generated.initialSchemaLocals`): `init` enters time.Time, slog.Level, big.Int, big.Rat and big.Float, each with the
+    one schema `ss`, which is `&Schema{Type: "string"}` (for big.Int, under the GODEBUG setting, `["null","string"]`).
+    A change of the table changes these lists and fails this obligation. -/
+theorem initial_entries_string :
+    Generated.initialSchemaLocals = ["ss := &Schema{Type: \"string\"}"] ∧
+    Generated.initialSchemaEntries =
+      ["reflect.TypeFor[time.Time]() := ss", "reflect.TypeFor[slog.Level]() := ss",
+       "reflect.TypeFor[big.Int]() := &Schema{Types: []string{\"null\", \"string\"}}",
+       "reflect.TypeFor[big.Int]() := ss", "reflect.TypeFor[big.Rat]() := ss", "reflect.TypeFor[big.Float]() := ss"] := by
+  decide
+
+/-- … so `StrEntries` holds of the initial table for the marshaler types, in every store that extends the one holding
+    `ss` -/
+theorem strEntries_initial (st : Store) (h : st.get? 0 = some strNode) : StrEntries initialTable marshalerTypes st := by
+  intro n hn sid hs
+  simp only [marshalerTypes, List.mem_cons, List.not_mem_nil, or_false] at hn
+  rcases hn with rfl | rfl | rfl | rfl <;>
+  · have : sid = 0 := by
+      simp [initialTable, Json.lookup] at hs
+      exact hs.symm
+    rw [this]; exact h
+
+/-- `infer_sound_named` for the initial type table (no `TypeSchemas`): declared types without marshal methods anywhere,
+    time.Time / slog.Level / big.Rat / big.Float as `.named n (.basic "String")` -/
+theorem infer_sound_initial_table (opts : IOpts) (fuel : Nat) (T : GoType) (st : Store) (id : NodeId)
+    (st' : Store) (re : String → String → Bool) (hnfs : opts.nullForSlices = true) (htbl : opts.schemas = initialTable)
+    (hss : st.get? 0 = some strNode) (hdom : InDomainN T = true) (hok : NamedOk opts marshalerTypes [] T = true)
+    (h : forType opts fuel T st = .ok (some id, st')) (v : GoValue) (hv : HasType T v)
+    (fuel' : Nat) (hf : depth T ≤ fuel') :
+    Spec.valid (specEnvNoRefs st' re) fuel' id (encode T v) = some true :=
+  infer_sound_named opts marshalerTypes fuel T st id st' re hnfs hdom (by rw [htbl]; exact strEntries_initial st hss) hok
+    h v hv fuel' hf
+
+/-! ### any entry of the type table (`ForOptions.TypeSchemas`) -/
+
+/-- **main, with entries of the type table (partial)**.  A declared type with an entry in the type table gets a clone of
+    the entry, with `null` added to its types for a pointer.  If every entry that `ForType` meets in `T` accepts the
+    encodings of its type (`EntriesAccept`: for every declared type `.named n u` of `T` with an entry `sid` — outside
+    `json:"-"` fields — `EntryAccepts st sid u an`: the entry is a schema without subschemas and references; it accepts
+    `encode u v` for every value `v` of the type; where the type is used through a pointer, the entry has a type keyword
+    and, with `null` added, accepts `null`), the schema `ForType` returns accepts the JSON encoding of every value of `T`.
+    Declared types without an entry are expanded (`C16.named_pushes_seen`) and need no hypothesis: if a name recurs along
+    a path, or the underlying type is not one the model knows, `ForType` does not return a schema.
+
+    `entryAccepts_string`: the entry `{"type":"string"}` accepts every marshaler type whose JSON form is a string
+    (`.named n (.basic "String")`), so this statement contains `infer_sound_named`'s marshaler types; with an empty
+    table it is `infer_sound` for types with declared types (`entriesAccept_of_empty`).
+
+    Partial, what is missing: entries WITH subschemas or references (the ingredients are there: the clone validates like
+    the entry for reference-free trees, `C20.clone_validates_same_partial`; to be combined with invariance of validity
+    under the later growth of the store); an entry without a type keyword reached through a pointer (known finding D17:
+    its types become `["null"]`); an entry that rejects some encoding, of course (big.Int's, D13). -/
+theorem infer_sound_table_partial (opts : IOpts) (fuel : Nat) (T : GoType) (st : Store) (id : NodeId) (st' : Store)
+    (re : String → String → Bool) (hnfs : opts.nullForSlices = true) (hdom : InDomainN T = true)
+    (hacc : EntriesAccept opts st false T) (h : forType opts fuel T st = .ok (some id, st')) (v : GoValue)
+    (hv : HasType T v) (fuel' : Nat) (hf : depth T ≤ fuel') :
+    Spec.valid (specEnvNoRefs st' re) fuel' id (encode T v) = some true := by
+  obtain ⟨id', hid, hm⟩ := inferFuel_modelsT opts hnfs st fuel T [] st (some id) st' (Ext.refl st) hdom hacc h
+  cases hid
+  rw [hnfs] at hm
+  exact valid_iff_isSome.1 ((Models.sound (re := re) T false id hm fuel' [] hf).2 v hv)
+
+/-- … and `ForType` never drops such a type -/
+theorem infer_some_table_partial (opts : IOpts) (fuel : Nat) (T : GoType) (st : Store) (r : Option NodeId) (st' : Store)
+    (hnfs : opts.nullForSlices = true) (hdom : InDomainN T = true) (hacc : EntriesAccept opts st false T)
+    (h : forType opts fuel T st = .ok (r, st')) : ∃ id, r = some id := by
+  obtain ⟨id, hid, _⟩ := inferFuel_modelsT opts hnfs st fuel T [] st r st' (Ext.refl st) hdom hacc h
+  exact ⟨id, hid⟩
+
+/-- the entry `{"type":"string"}` accepts the encodings of every marshaler type whose JSON form is a string, by value and
+    through a pointer -/
+theorem string_entry_accepts (st : Store) (sid : NodeId) (h : st.get? sid = some strNode) (an : Bool) :
+    EntryAccepts st sid (.basic "String") an :=
+  entryAccepts_string h an
+
+/-- without entries for the declared types there is nothing to assume: `infer_sound_table_partial` is then `infer_sound`
+    for every type with declared types on which `ForType` returns a schema -/
+theorem no_entries_nothing_assumed (opts : IOpts) (st : Store) (h : opts.schemas = []) (T : GoType) :
+    EntriesAccept opts st false T :=
+  (entriesAccept_of_empty opts st h).1 T false
+
+/-! ### the hypotheses of `infer_sound_named` are satisfiable, and needed (labelled tests)
+
+  `tagLookup` splits the tag with `String.splitOn`, which the kernel does not evaluate; what the tag parser returns for
+  each tag is a hypothesis here (the parser is specified in C16: `fieldJSONInfo_named`, `fieldJSONInfo_no_tag`). -/
+
+/-- `type Point struct { X int "json:\"x\""; Y int "json:\"y,omitempty\"" }` -/
+def pointT (tX tY : String) : GoType := .named "Point" (.struct [("X", tX, .basic "Int"), ("Y", tY, .basic "Int")])
+
+/-- `type Celsius float64` and
+    `type Reading struct { Temp Celsius "json:\"temp\""; Origin Point "json:\"origin\""; Path []Point "json:\"path\"";
+                           At time.Time "json:\"at\"" }`:
+    a declared struct type with a declared scalar type, a declared struct type at two sibling positions (once in a
+    slice) and a marshaler type of the initial table -/
+def readingT (tT tO tP tA tX tY : String) : GoType :=
+  .named "Reading" (.struct [
+    ("Temp", tT, .named "Celsius" (.basic "Float64")),
+    ("Origin", tO, pointT tX tY),
+    ("Path", tP, .slice (pointT tX tY)),
+    ("At", tA, .named "time.Time" (.basic "String"))])
+
+/-- the options of a call without `TypeSchemas`: the initial table -/
+def initialOpts : IOpts := { schemas := initialTable }
+
+/-- the declared types of `Reading` are transparent, time.Time is a marshaler type of the table (no tag is read) -/
+theorem reading_namedOk (tT tO tP tA tX tY : String) :
+    NamedOk initialOpts marshalerTypes [] (readingT tT tO tP tA tX tY) = true := by
+  simp [readingT, pointT, NamedOk, namedOkFields, initialOpts, initialTable, marshalerTypes, namedShape, isStringKind,
+    Json.lookup]
+
+section WitnessesN
+variable (tT tO tP tA tX tY : String)
+  (hT : fieldJSONInfo "Temp" tT = { name := "temp" }) (hO : fieldJSONInfo "Origin" tO = { name := "origin" })
+  (hP : fieldJSONInfo "Path" tP = { name := "path" }) (hA : fieldJSONInfo "At" tA = { name := "at" })
+  (hX : fieldJSONInfo "X" tX = { name := "x" }) (hY : fieldJSONInfo "Y" tY = { name := "y", omitempty := true })
+include hT hO hP hA hX hY
+
+theorem reading_inDomainN : InDomainN (readingT tT tO tP tA tX tY) = true := by
+  have v1 : validTagName "temp" = true := by decide
+  have v2 : validTagName "path" = true := by decide
+  have v3 : validTagName "at" = true := by decide
+  have v4 : validTagName "x" = true := by decide
+  have v5 : validTagName "y" = true := by decide
+  have v6 : validTagName "origin" = true := by decide
+  have d1 : "Int" ∈ domainKinds := by decide
+  have d2 : "String" ∈ domainKinds := by decide
+  have d3 : "Float64" ∈ domainKinds := by decide
+  simp [readingT, pointT, InDomainN, inDomainFieldsN, jsonNames, nodup, fieldTagOk, hT, hO, hP, hA, hX, hY, v1, v2, v3, v4,
+    v5, v6, d1, d2, d3]
+
+/-- the value `Reading{Temp: 20, Origin: Point{0, 0}, Path: []Point{{X: 1, Y: 0}}, At: t}` where `t.MarshalJSON()` is
+    `"2026-09-30T00:00:00Z"` -/
+theorem reading_hasType : HasType (readingT tT tO tP tA tX tY)
+    (.struct [.float 20, .struct [.int 0, .int 0], .slice [.struct [.int 1, .int 0]], .str "2026-09-30T00:00:00Z"]) := by
+  simp [readingT, pointT, HasType, HasTypeFields, hT, hO, hP, hA, hX, hY, basicHasType, intRange, floatKinds]
+  exact ⟨⟨_, _, ⟨rfl, rfl⟩, by decide, by decide⟩, ⟨_, _, ⟨rfl, rfl⟩, by decide, by decide⟩,
+    ⟨_, _, ⟨rfl, rfl⟩, by decide, by decide⟩⟩
+
+/-- `ForType` succeeds on the type (the initial table, the store that holds `ss`): `h` below is satisfiable -/
+theorem reading_infers (dT : tagLookup "jsonschema" tT = none) (dO : tagLookup "jsonschema" tO = none)
+    (dP : tagLookup "jsonschema" tP = none) (dA : tagLookup "jsonschema" tA = none)
+    (dX : tagLookup "jsonschema" tX = none) (dY : tagLookup "jsonschema" tY = none) :
+    ∃ id st', forType initialOpts 5 (readingT tT tO tP tA tX tY) #[strNode] = .ok (some id, st') := by
+  rw [forType_erase initialOpts marshalerTypes 5 _ _ (strEntries_initial _ rfl) (reading_namedOk tT tO tP tA tX tY)]
+  have kF : kindEntry "Float64" = some ("number", none, none) := by decide
+  have kI : kindEntry "Int" = some ("integer", none, none) := by decide
+  have kS : kindEntry "String" = some ("string", none, none) := by decide
+  simp [readingT, pointT, erase, eraseFields, forType, inferFuel, inferStep, stripPtrs, typeName, structLoop, hT, hO, hP, hA,
+    hX, hY, dT, dO, dP, dA, dX, dY, Res.bind_ok, Store.alloc, addNull, dedupKeepLast, kF, kI, kS]
+
+/-- `infer_sound_initial_table` applied: the value marshals to
+    `{"temp":20,"origin":{"x":0},"path":[{"x":1}],"at":"2026-09-30T00:00:00Z"}` (`y` is 0 and omitempty), which the
+    inferred schema accepts -/
+example (id : NodeId) (st' : Store)
+    (h : forType initialOpts 5 (readingT tT tO tP tA tX tY) #[strNode] = .ok (some id, st')) :
+    Spec.valid (specEnvNoRefs st') 6 id
+      (.obj [("temp", .num 20), ("origin", .obj [("x", .num 0)]), ("path", .arr [.obj [("x", .num 1)]]),
+             ("at", .str "2026-09-30T00:00:00Z")]) = some true := by
+  have := infer_sound_initial_table initialOpts 5 _ #[strNode] id st' (fun _ _ => false) rfl rfl rfl
+    (reading_inDomainN tT tO tP tA tX tY hT hO hP hA hX hY) (reading_namedOk tT tO tP tA tX tY) h _
+    (reading_hasType tT tO tP tA tX tY hT hO hP hA hX hY) 6 (by simp [readingT, pointT, depth, depthFields])
+  simpa [readingT, pointT, encode, encodeFields, hT, hO, hP, hA, hX, hY, fieldSkipped, isEmptyValue] using this
+
+end WitnessesN
+
+/-! ### the hypotheses of `infer_sound_table_partial` are satisfiable (labelled tests) -/
+
+/-- an entry `{"type": ty}` accepts the encodings of a type all of whose encodings have the JSON type `ty` -/
+theorem type_entry_accepts (st : Store) (sid : NodeId) (ty : String) (u : GoType) (hty : ty ≠ "")
+    (h : st.get? sid = some { type := ty }) (hu : ∀ v, HasType u v → typeMatches ty (encode u v) = true) (an : Bool) :
+    EntryAccepts st sid u an :=
+  entryAccepts_typeOnly hty h hu an
+
+/-- `Reading` and the initial table: the one entry met is time.Time's -/
+theorem reading_entriesAccept (tT tO tP tA tX tY : String) :
+    EntriesAccept initialOpts #[strNode] false (readingT tT tO tP tA tX tY) := by
+  simp [readingT, pointT, EntriesAccept, EntriesAcceptFields, initialOpts, initialTable, Json.lookup]
+  exact Or.inr (string_entry_accepts _ _ rfl false)
+
+/-- `infer_sound_table_partial` applied to `Reading` (no `NamedOk` is asked for) -/
+example (tT tO tP tA tX tY : String)
+    (hT : fieldJSONInfo "Temp" tT = { name := "temp" }) (hO : fieldJSONInfo "Origin" tO = { name := "origin" })
+    (hP : fieldJSONInfo "Path" tP = { name := "path" }) (hA : fieldJSONInfo "At" tA = { name := "at" })
+    (hX : fieldJSONInfo "X" tX = { name := "x" }) (hY : fieldJSONInfo "Y" tY = { name := "y", omitempty := true })
+    (id : NodeId) (st' : Store) (h : forType initialOpts 5 (readingT tT tO tP tA tX tY) #[strNode] = .ok (some id, st')) :
+    Spec.valid (specEnvNoRefs st') 6 id
+      (.obj [("temp", .num 20), ("origin", .obj [("x", .num 0)]), ("path", .arr [.obj [("x", .num 1)]]),
+             ("at", .str "2026-09-30T00:00:00Z")]) = some true := by
+  have := infer_sound_table_partial initialOpts 5 _ #[strNode] id st' (fun _ _ => false) rfl
+    (reading_inDomainN tT tO tP tA tX tY hT hO hP hA hX hY) (reading_entriesAccept tT tO tP tA tX tY) h _
+    (reading_hasType tT tO tP tA tX tY hT hO hP hA hX hY) 6 (by simp [readingT, pointT, depth, depthFields])
+  simpa [readingT, pointT, encode, encodeFields, hT, hO, hP, hA, hX, hY, fieldSkipped, isEmptyValue] using this
+
+/-- `type Celsius float64` with `TypeSchemas[Celsius] = {"type":"number"}`, used through a pointer:
+    `struct { T *Celsius "json:\"t\"" }` -/
+def celsiusOpts : IOpts := { schemas := [("Celsius", 0)] }
+
+theorem celsius_entriesAccept (tT : String) :
+    EntriesAccept celsiusOpts #[{ type := "number" }] false (.struct [("T", tT, .ptr (.named "Celsius" (.basic "Float64")))]) := by
+  simp [EntriesAccept, EntriesAcceptFields, celsiusOpts]
+  refine Or.inr (entryAccepts_typeOnly (by decide) rfl (fun v hv => ?_) true)
+  cases v with
+  | float q => by_cases hq : q.den = 1 <;> simp [encode, typeMatches, Json.typeName, hq]
+  | int i => obtain ⟨lo, hi, hr, _⟩ := (show ∃ lo hi, intRange "Float64" = some (lo, hi) ∧ lo ≤ i ∧ i ≤ hi from hv); simp [intRange] at hr
+  | _ => simp [HasType, basicHasType] at hv
+
+
+/-- `infer_sound_table_partial` applied: `{"t":null}` (the nil pointer) and `{"t":20}` are accepted by the schema inferred
+    with `TypeSchemas[Celsius] = {"type":"number"}` -/
+example (tT : String) (hT : fieldJSONInfo "T" tT = { name := "t" }) (id : NodeId) (st' : Store)
+    (h : forType celsiusOpts 3 (.struct [("T", tT, .ptr (.named "Celsius" (.basic "Float64")))]) #[{ type := "number" }]
+      = .ok (some id, st')) :
+    Spec.valid (specEnvNoRefs st') 3 id (.obj [("t", .null)]) = some true ∧
+    Spec.valid (specEnvNoRefs st') 3 id (.obj [("t", .num 20)]) = some true := by
+  have hd : InDomainN (.struct [("T", tT, .ptr (.named "Celsius" (.basic "Float64")))]) = true := by
+    have v1 : validTagName "t" = true := by decide
+    have d1 : "Float64" ∈ domainKinds := by decide
+    simp [InDomainN, inDomainFieldsN, jsonNames, nodup, fieldTagOk, hT, v1, d1]
+  have key := fun v hv => infer_sound_table_partial celsiusOpts 3 _ #[{ type := "number" }] id st' (fun _ _ => false) rfl hd
+    (celsius_entriesAccept tT) h v hv 3 (by simp [depth, depthFields])
+  constructor
+  · have := key (.struct [.nilPtr]) (by simp [HasType, HasTypeFields, hT])
+    simpa [encode, encodeFields, hT, fieldSkipped] using this
+  · have := key (.struct [.ptr (.float 20)]) (by simp [HasType, HasTypeFields, hT, basicHasType, floatKinds])
+    simpa [encode, encodeFields, hT, fieldSkipped] using this
+
+/-- … and evaluated (no tag: the field name is `T`), with a non-number rejected -/
+example : (match forType celsiusOpts 3 (.ptr (.named "Celsius" (.basic "Float64"))) #[{ type := "number" }] with
+    | .ok (some id, st') => [Spec.valid (specEnvNoRefs st') 1 id .null, Spec.valid (specEnvNoRefs st') 1 id (.num 20),
+        Spec.valid (specEnvNoRefs st') 1 id (.str "x")]
+    | _ => []) = [some true, some true, some false] := by decide
+
+/-- the hypothesis on the type keyword is needed (known finding D17): `TypeSchemas[Celsius] = {}` ("anything") reached
+    through a pointer becomes `{"type":["null"]}`, which rejects every number -/
+example : (match forType celsiusOpts 3 (.ptr (.named "Celsius" (.basic "Float64"))) #[{}] with
+    | .ok (some id, st') => [Spec.valid (specEnvNoRefs st') 1 id .null, Spec.valid (specEnvNoRefs st') 1 id (.num 20)]
+    | _ => []) = [some true, some false] := by decide
+
+/-- `NamedOk` is needed, (1): a name that occurs twice along ONE path — how a recursive declaration looks in the type
+    language — makes `forType` fail (the cycle check, `C16.recursive_*_errors`), although the erased type has a schema -/
+example : NamedOk {} [] [] (.named "L" (.slice (.named "L" (.slice (.basic "Int"))))) = false ∧
+    forType {} 5 (.named "L" (.slice (.named "L" (.slice (.basic "Int"))))) #[] = .err ∧
+    (forType {} 5 (erase (.named "L" (.slice (.named "L" (.slice (.basic "Int")))))) #[]).isOk = true :=
+  ⟨by decide, by rfl, by decide⟩
+
+/-- … (2): a declared type with a `TypeSchemas` entry that is not its own schema: `type Celsius float64` with the entry
+    `{"type":"string"}` — the clone of the entry rejects the encoding `20` of `Celsius(20)` -/
+example : NamedOk { schemas := [("Celsius", 0)] } [] [] (.named "Celsius" (.basic "Float64")) = false ∧
+    (match forType { schemas := [("Celsius", 0)] } 2 (.named "Celsius" (.basic "Float64")) #[strNode] with
+     | .ok (some id, st') => Spec.valid (specEnvNoRefs st') 2 id (encode (.named "Celsius" (.basic "Float64")) (.float 20))
+     | _ => none) = some false := by decide
+
+/-- … and the known finding D13 in these terms: big.Int is not among `marshalerTypes`, and cannot be: its entry is
+    `{"type":"string"}`, its JSON form a number (`.named "big.Int" (.basic "Int")`) -/
+example : NamedOk initialOpts marshalerTypes [] (.named "big.Int" (.basic "Int")) = false ∧
+    (match forType initialOpts 2 (.named "big.Int" (.basic "Int")) #[strNode] with
+     | .ok (some id, st') => Spec.valid (specEnvNoRefs st') 2 id (encode (.named "big.Int" (.basic "Int")) (.int 7))
+     | _ => none) = some false := by decide
+
 /-! ## embedded struct fields (`forTypeE`, JSV/Model/InferEmb.lean; json.Marshal: `EncJsonEmb.encodeE`) -/
 
 open EncJsonEmb in
@@ -99,7 +435,7 @@ open EncJsonEmb in
     by its own, and `additionalProperties: false` then rejects the promoted members.
 
     Partial, what is missing: types outside `InDomainE`: D14 (a JSON name shared by two Go names), D16 (tagged /
-    non-struct embedded fields), named types in non-embedded positions (as in `infer_sound`). -/
+    non-struct embedded fields); declared types in non-embedded positions are in `infer_soundE_named_partial`. -/
 theorem infer_soundE_partial (opts : IOpts) (fuel : Nat) (T : GoTypeE) (st : Store) (id : NodeId) (st' : Store)
     (re : String → String → Bool) (hnfs : opts.nullForSlices = true) (hno : EmbNotInTable opts T)
     (hdom : InDomainE T = true) (h : forTypeE opts fuel T st = .ok (some id, st')) (v : GoValue) (hv : HasTypeE T v)
@@ -109,6 +445,44 @@ theorem infer_soundE_partial (opts : IOpts) (fuel : Nat) (T : GoTypeE) (st : Sto
   cases hid
   rw [hnfs] at hm
   exact valid_iff_isSome.1 ((soundE (re := re) (wt T) T (Nat.le_refl _) hdom false id hm fuel' [] hf).2 v hv)
+
+open EncJsonEmb in
+/-- **main, with embedded fields and declared types (partial)**: as `infer_soundE_partial`, with declared types
+    (`type Celsius float64`, `type Point struct{…}` …) in NON-embedded positions anywhere in `T`: field types, element
+    types, the types of the fields of embedded structs.  `InDomainEN T`: the type with these declared types replaced by
+    their underlying types (`eraseE`; the declared types of embedded fields stay) is in `InDomainE`; `NamedOkE opts [] T`
+    (decidable): none of them has an entry in the type table, the underlying types are basic kinds, slices, arrays, maps or
+    structs, no name occurs twice along a root-to-leaf path.  A value of a declared type is a value of its underlying type
+    and is encoded like it.
+
+    Partial, what is missing: as `infer_soundE_partial` (D14, D16, overrides of embedded types), and declared types WITH
+    a type-table entry in non-embedded positions (`infer_sound_table_partial` has them for types without embedded
+    fields). -/
+theorem infer_soundE_named_partial (opts : IOpts) (fuel : Nat) (T : GoTypeE) (st : Store) (id : NodeId) (st' : Store)
+    (re : String → String → Bool) (hnfs : opts.nullForSlices = true) (hno : EmbNotInTable opts T)
+    (hdom : InDomainEN T = true) (hok : NamedOkE opts [] T = true)
+    (h : forTypeE opts fuel T st = .ok (some id, st')) (v : GoValue) (hv : HasTypeE T v)
+    (fuel' : Nat) (hf : depthE T ≤ fuel') :
+    Spec.valid (specEnvNoRefs st' re) fuel' id (encodeE T v) = some true := by
+  rw [forTypeE_erase opts fuel T st hok] at h
+  rw [← encodeE_erase]
+  exact infer_soundE_partial opts fuel (eraseE T) st id st' re hnfs (embNotInTable_erase opts T hno) hdom h v
+    ((hasTypeE_erase T v).2 hv) fuel' (Nat.le_trans (depthE_erase_le T) hf)
+
+open EncJsonEmb in
+/-- … and `ForType` never drops such a type -/
+theorem infer_someE_named (opts : IOpts) (fuel : Nat) (T : GoTypeE) (st : Store) (r : Option NodeId) (st' : Store)
+    (hdom : InDomainEN T = true) (hok : NamedOkE opts [] T = true) (h : forTypeE opts fuel T st = .ok (r, st')) :
+    ∃ id, r = some id := by
+  rw [forTypeE_erase opts fuel T st hok] at h
+  exact inferFuelE_some opts fuel (eraseE T) [] st r st' hdom h
+
+open EncJsonEmb in
+/-- the spec with embedded fields does not see declared types in non-embedded positions either -/
+theorem encJsonEmb_named_conservative (T : GoTypeE) :
+    (∀ v, HasTypeE (eraseE T) v ↔ HasTypeE T v) ∧ (∀ v, encodeE (eraseE T) v = encodeE T v) ∧
+    depthE (eraseE T) ≤ depthE T :=
+  ⟨hasTypeE_erase T, encodeE_erase T, depthE_erase_le T⟩
 
 open EncJsonEmb in
 /-- on the domain `ForType` never drops the type -/
@@ -197,6 +571,65 @@ example (id : NodeId) (st' : Store) (h : forTypeE {} 3 (embedValT tI tX tY tA) #
     dominates, isStructE, derefE, hIo.1, hIo.2, hX, hY, hA, fieldSkipped, isEmptyValue] using this
 
 end WitnessesE
+
+/-! ### … with declared types in non-embedded positions -/
+
+/-- `struct{ Inner; A Celsius "json:\"a\"" }` with `type Inner struct { X Count "json:\"x\""; Y string "json:\"y,omitempty\"" }`,
+    `type Count int`, `type Celsius float64` -/
+def embedNamedT (tI tX tY tA : String) : GoTypeE :=
+  .struct [emb "Inner" tI (.named "Inner" (.struct [fld "X" tX (.named "Count" (.basic "Int")), fld "Y" tY (.basic "String")])),
+           fld "A" tA (.named "Celsius" (.basic "Float64"))]
+
+open EncJsonEmb in
+theorem embedNamed_erase (tI tX tY tA : String) :
+    eraseE (embedNamedT tI tX tY tA) =
+      .struct [emb "Inner" tI (.named "Inner" (.struct [fld "X" tX (.basic "Int"), fld "Y" tY (.basic "String")])),
+               fld "A" tA (.basic "Float64")] := by
+  simp [embedNamedT, eraseE, eraseFieldsE, eraseEmbE, emb, fld]
+
+open EncJsonEmb in
+theorem embedNamed_namedOk (tI tX tY tA : String) : NamedOkE {} [] (embedNamedT tI tX tY tA) = true := by
+  simp [embedNamedT, NamedOkE, namedOkFieldsE, namedOkEmbE, emb, fld, namedShapeE, Json.lookup]
+
+section WitnessesEN
+open EncJsonEmb
+variable (tI tX tY tA : String)
+  (hI : tagLookup "json" tI = none)
+  (hX : fieldJSONInfo "X" tX = { name := "x" }) (hY : fieldJSONInfo "Y" tY = { name := "y", omitempty := true })
+  (hA : fieldJSONInfo "A" tA = { name := "a" })
+include hI hX hY hA
+
+theorem embedNamed_inDomain : InDomainEN (embedNamedT tI tX tY tA) = true := by
+  have v1 : validTagName "x" = true := by decide
+  have v2 : validTagName "y" = true := by decide
+  have v3 : validTagName "a" = true := by decide
+  have d1 : "Int" ∈ domainKinds := by decide
+  have d2 : "String" ∈ domainKinds := by decide
+  have d3 : "Float64" ∈ domainKinds := by decide
+  unfold InDomainEN
+  rw [embedNamed_erase]
+  simp [fld, emb, InDomainE, inDomainFieldsE, inDomainEmbE, namesOk, pairOk, live, jsonNameOf, allFields, embFields,
+    hI, hX, hY, hA, fieldTagOk, v1, v2, v3, d1, d2, d3]
+
+theorem embedNamed_hasType : HasTypeE (embedNamedT tI tX tY tA) (.struct [.struct [.int 1, .str ""], .float 20]) := by
+  have hIo := (fieldJSONInfo_untagged (g := "Inner") (tag := tI) (by rw [hI]; rfl))
+  simp [embedNamedT, fld, emb, HasTypeE, HasTypeFieldsE, HasTypeEmbE, classify, isStructE, derefE, hIo.1, hIo.2, hX, hY, hA,
+    basicHasType, intRange, floatKinds]
+  exact ⟨_, _, ⟨rfl, rfl⟩, by decide, by decide⟩
+
+/-- `infer_soundE_named_partial` applied: `{Inner: {X: 1, Y: ""}, A: 20}` marshals to `{"x":1,"a":20}`, which the inferred
+    schema accepts -/
+example (id : NodeId) (st' : Store) (h : forTypeE {} 4 (embedNamedT tI tX tY tA) #[] = .ok (some id, st')) :
+    Spec.valid (specEnvNoRefs st') 5 id (.obj [("x", .num 1), ("a", .num 20)]) = some true := by
+  have hIo := (fieldJSONInfo_untagged (g := "Inner") (tag := tI) (by rw [hI]; rfl))
+  have := infer_soundE_named_partial {} 4 _ #[] id st' (fun _ _ => false) rfl
+    ((embNotInTable_of_empty (opts := {}) (fun _ => rfl) _).1 _ (Nat.le_refl _))
+    (embedNamed_inDomain tI tX tY tA hI hX hY hA) (embedNamed_namedOk tI tX tY tA) h _
+    (embedNamed_hasType tI tX tY tA hI hX hY hA) 5
+    (by simp [embedNamedT, fld, emb, depthE, depthFieldsE])
+  simpa [embedNamedT, fld, emb, encodeE, encodeFieldsE, encodeEmbE, candidates, embCandidates, classify, mkTField, isDominant,
+    dominates, isStructE, derefE, hIo.1, hIo.2, hX, hY, hA, fieldSkipped, isEmptyValue] using this
+end WitnessesEN
 
 /-- outside the domain (known finding D14): in `struct{ Y string "json:\"x\""; Inner }` the JSON name `x` belongs to
     two Go names -/
